@@ -20,8 +20,8 @@ func verifLog() *logrus.Entry {
 	return logrus.NewEntry(l)
 }
 
-// VerifFrame mirrors the unexported frame type.
-type VerifFrame struct {
+// VerifTFrame mirrors the unexported frame type.
+type VerifTFrame struct {
 	AckNo      uint32
 	FrameNo    uint32
 	DataLength uint16
@@ -36,7 +36,7 @@ type VerifFrame struct {
 	Queued     bool
 }
 
-func (v VerifFrame) toFrame() *frame {
+func (v VerifTFrame) toFrame() *frame {
 	return &frame{
 		ackNo:      v.AckNo,
 		frameNo:    v.FrameNo,
@@ -47,8 +47,8 @@ func (v VerifFrame) toFrame() *frame {
 	}
 }
 
-func verifFromFrame(f *frame) VerifFrame {
-	return VerifFrame{
+func verifFromFrame(f *frame) VerifTFrame {
+	return VerifTFrame{
 		AckNo: f.ackNo, FrameNo: f.frameNo, DataLength: f.dataLength,
 		REQ: f.flags.REQ, RESP: f.flags.RESP, REL: f.flags.REL, ACK: f.flags.ACK, FIN: f.flags.FIN, RTR: f.flags.RTR,
 		TubeID: f.tubeID, Data: f.data, Queued: f.queued,
@@ -56,19 +56,19 @@ func verifFromFrame(f *frame) VerifFrame {
 }
 
 // VerifTubeFrameBytes is frame.toBytes.
-func VerifTubeFrameBytes(v VerifFrame) []byte { return v.toFrame().toBytes() }
+func VerifTubeFrameBytes(v VerifTFrame) []byte { return v.toFrame().toBytes() }
 
 // VerifTubeFrameParse is fromBytes.
-func VerifTubeFrameParse(b []byte) (VerifFrame, error) {
+func VerifTubeFrameParse(b []byte) (VerifTFrame, error) {
 	f, err := fromBytes(b)
 	if err != nil || f == nil {
-		return VerifFrame{}, err
+		return VerifTFrame{}, err
 	}
 	return verifFromFrame(f), nil
 }
 
 // VerifInitFrameBytes is initiateFrame.toBytes.
-func VerifInitFrameBytes(tubeID byte, tubeType TubeType, frameNo uint32, v VerifFrame) []byte {
+func VerifInitFrameBytes(tubeID byte, tubeType TubeType, frameNo uint32, v VerifTFrame) []byte {
 	p := initiateFrame{
 		frameNo: frameNo, tubeID: tubeID, tubeType: tubeType, data: v.Data, dataLength: v.DataLength,
 		flags: frameFlags{REQ: v.REQ, RESP: v.RESP, REL: v.REL, ACK: v.ACK, FIN: v.FIN, RTR: v.RTR},
@@ -90,7 +90,7 @@ func (v *VerifReceiver) SetPosition(ackNo, windowStart uint64) {
 	v.r.windowStart = windowStart
 }
 
-func (v *VerifReceiver) Receive(f VerifFrame) (bool, error) { return v.r.receive(f.toFrame()) }
+func (v *VerifReceiver) Receive(f VerifTFrame) (bool, error) { return v.r.receive(f.toFrame()) }
 
 // Read is receiver.read; it blocks when nothing is buffered and the receiver is not closed.
 func (v *VerifReceiver) Read(b []byte) (int, error) { return v.r.read(b) }
@@ -178,10 +178,10 @@ func (v *VerifSender) DupAckCounter() int { return v.s.senderWindow.duplicatedAc
 func (v *VerifSender) UnackedFrames() int { return v.s.unAckedFramesRemaining() }
 
 // Frames returns the retransmission buffer (unacknowledged frames, oldest first).
-func (v *VerifSender) Frames() []VerifFrame {
+func (v *VerifSender) Frames() []VerifTFrame {
 	v.s.m.Lock()
 	defer v.s.m.Unlock()
-	res := make([]VerifFrame, len(v.s.frames))
+	res := make([]VerifTFrame, len(v.s.frames))
 	for i, f := range v.s.frames {
 		res[i] = verifFromFrame(f.frame)
 	}
